@@ -1,0 +1,46 @@
+//go:build verif
+
+package bits
+
+// Additional (strengthening) clauses for the EBSP reader needed by the hevc parsers (C16): the value returned by
+// Read(n) fits in n bits whenever the accumulator is masked, and every successful read leaves it masked.
+
+//@ pred erM(r *EBSPReader) = r != nil && (r.err == nil ==> erInv0(r) && vMasked(r))
+
+// erK: masked reader on the same stream; errors are sticky (g: no error at entry) and the entry value w of erInvW (reader
+// position in sync with the stream) is kept as long as no error occurs.
+// Used as `erK(r, old(r.err) == nil, old(erInvW(r)), old(r.rd))` in loop invariants and postconditions.
+//@ pred erK(r *EBSPReader, g bool, w bool, rd io.Reader) = erM(r) && r.rd == rd && (r.err == nil ==> g && (w ==> erInvW(r)))
+
+//@ func (*EBSPReader).Read
+//@   ensures r.err == nil && n >= 0 ==> vMasked(r)
+//@   ensures 0 <= n && n <= 32 && (old(r.err) == nil ==> old(vMasked(r))) ==> result <= mask(n)
+//@   loop 1 invariant 0 <= n && n <= 32 && old(vMasked(r)) ==> r.v == r.v & mask(r.n)
+
+//@ func (*EBSPReader).ReadFlag
+//@   ensures r.err == nil ==> vMasked(r)
+
+//@ func (*EBSPReader).ReadExpGolomb
+//@   ensures r.err == nil ==> vMasked(r)
+
+//@ func (*EBSPReader).ReadSignedGolomb
+//@   ensures r.err == nil ==> vMasked(r)
+
+//@ func (*EBSPReader).SetError
+//@   ensures r.v == old(r.v)
+
+//@ func (*EBSPReader).MoreRbspData
+//@   ensures old(r.err) == nil && r.err == nil && result1 == nil && old(vMasked(r)) ==> vMasked(r)
+
+// MoreRbspData reports true only without any error.
+//@ func (*EBSPReader).MoreRbspData
+//@   ensures result0 ==> old(r.err) == nil && r.err == nil && result1 == nil
+
+// Bits that are already buffered can be read without touching the stream (no new error); a failed read returns zero.
+//@ func (*EBSPReader).Read
+//@   ensures old(r.err) == nil && old(r.n) >= n ==> r.err == nil
+//@ func (*EBSPReader).ReadFlag
+//@   ensures old(r.err) == nil && old(r.n) >= 1 ==> r.err == nil
+//@   ensures r.err != nil ==> result == false
+//@ func (*EBSPReader).MoreRbspData
+//@   ensures ghost(r.rd).rlen == old(ghost(r.rd).rlen)
